@@ -63,10 +63,29 @@ def gen_case(rng):
         cand = [i for i in range(n) if i not in pre_fail]
         if cand:
             submit_fail[rng.choice(cand)] = rng.randrange(30, 34)
+    dur = {i: rng.choice([0, 0, 1, 2, 5]) for i in range(n)}
+    return_exc = rng.random() < 0.5
+    stop_after = rng.choice([None, None, None, 1, 2, 4])
+    if n >= 2 and rng.random() < 0.3:
+        # clustered failures: element i fails while a later element j, inside the look-ahead window and already rejected
+        # by the preprocessor, is still queued behind it (the clean-up path then meets an already-failed entry);
+        # the elements up to i are slow, so that the feeder has run ahead when i's failure is met
+        has_pre = True
+        i = rng.randrange(0, n - 1)
+        j = rng.randrange(i + 1, min(n, i + 2 * conc + 1))
+        pre_fail, call_fail, submit_fail = {j: rng.randrange(10, 14)}, {}, {}
+        if rng.random() < 0.5:
+            pre_fail[i] = rng.randrange(10, 14)
+        else:
+            call_fail[i] = rng.randrange(20, 24)
+        for k in range(i + 1):
+            dur[k] = 5
+        return_exc = rng.random() < 0.3
+        stop_after = rng.choice([None, None, i + 1]) if i > 0 else None
     return {'conc': conc, 'src': src, 'has_pre': has_pre, 'pre_fail': pre_fail, 'call_fail': call_fail, 'submit_fail': submit_fail,
-            'return_x': rng.random() < 0.4, 'return_exc': rng.random() < 0.5,
-            'stop_after': rng.choice([None, None, None, 1, 2, 4]),
-            'dur': {i: rng.choice([0, 0, 1, 2, 5]) for i in range(n)}}
+            'return_x': rng.random() < 0.4, 'return_exc': return_exc,
+            'stop_after': stop_after,
+            'dur': dur}
 
 
 def code1(y):
